@@ -55,15 +55,17 @@ def run(ctx):
     # design returns it on every path (RetriesReturned), the named defect NoCleanUpOnRetryAbort is rejected by TLC
     lc.impl_model_checks(ctx)
     gcases = lc.scenario_cases(ctx, "Scenarios", "Scenarios.cfg")
-    gwin = [c for c in gcases if c["hold"] in lc.RETRY_GATES or c["hold2"] in lc.RETRY_GATES or c.get("steps")]
-    gdown = [c for c in gwin if c["during"] == "hostsdown" or c.get("steps")]     # always replayed: abandoned retries, TLC-derived step schedules
-    grest = [c for c in gwin if c["during"] != "hostsdown" and not c.get("steps")]
+    gwin = [c for c in gcases if c["hold"] in lc.RETRY_GATES or c["hold2"] in lc.RETRY_GATES or c.get("steps") or c.get("body")]
+    # always replayed: abandoned retries, TLC-derived step schedules, requests with a body (the upstream stream is admitted
+    # before the request counts as sent)
+    gdown = [c for c in gwin if c["during"] == "hostsdown" or c.get("steps") or c.get("body")]
+    grest = [c for c in gwin if not (c["during"] == "hostsdown" or c.get("steps") or c.get("body"))]
     gpicked = gdown + (rng.sample(grest, min(len(grest), 240)) if q else grest)
     gtraces, gresults = lc.run_sharded(ctx, "c03", gpicked, shards=8 if q else 14, extra_args=["-books"], tag="_guided")
     lc.validate(ctx, "C10", gtraces, gresults, kinds_for_property=lc.RESOURCE_KINDS,
                 sigfn=lambda pid, kind, case, rt: "C10:guided:%s:hold=%s:during=%s" % (
                     kind, "+".join(x[5:] for x in case["steps"] if x.startswith("hold:")) if case.get("steps") else case.get("hold"),
-                    "steps" if case.get("steps") else case.get("during")))
+                    ("steps" if case.get("steps") else case.get("during")) + (":body" if case.get("body") else "")))
     ctx.cov["guided_retry_window"] = dict(cases=len(gpicked), hostsdown=len(gdown))
     allp = os.path.join(ctx.tmp, "c10_all.ndjson")
     with open(allp, "w") as fo:
